@@ -213,6 +213,7 @@ func DoFresh(bin string, req *Req, gomaxprocs int) (*Resp, error) {
 	if gomaxprocs > 0 {
 		env = append(env, fmt.Sprintf("GOMAXPROCS=%d", gomaxprocs))
 	}
+	env = append(env, req.Sched.ProcEnv...)
 	w := &worker{bin: bin, env: env}
 	defer w.stop()
 	return w.do(req)
@@ -263,6 +264,9 @@ func DoSession(bin string, reqs []*Req, gomaxprocs int) ([]*Resp, error) {
 	env := os.Environ()
 	if gomaxprocs > 0 {
 		env = append(env, fmt.Sprintf("GOMAXPROCS=%d", gomaxprocs))
+	}
+	if len(reqs) > 0 {
+		env = append(env, reqs[len(reqs)-1].Sched.ProcEnv...)
 	}
 	w := &worker{bin: bin, env: env}
 	defer w.stop()
